@@ -206,6 +206,17 @@ def build_calls(tmpdir):
                                                                               {"type": "enum", "name": "E", "symbols": ["S"]}]}]}
     add("override_alternating_readers", lambda: {"s1": copy.deepcopy(U1), "r1": [{"u": {"x": 1}}, {"u": "S"}, {"u": None}],
                                                  "s2": copy.deepcopy(U2), "r2": [{"u": ("ns.B", {"x": 2})}, {"u": {"x": 3}}], "rounds": 25}, override_alternating)
+    # a float offered where the schema says int (no validator): the outcome is the same whatever was encoded before
+    add("write_float_for_int", lambda: {"schema": {"type": "record", "name": "ns.I", "fields": [{"name": "n", "type": "int"}, {"name": "m", "type": "long"}]},
+                                        "datum": {"n": 5.0, "m": decimal.Decimal(20)}},
+        lambda fa, a, sh: _sl(fa, a["schema"], a["datum"]))
+    # a record carrying the "-type" hint, written twice: the caller's dict is not the library's to change
+    S_HINT = {"type": "record", "name": "ns.Log", "fields": [{"name": "ev", "type": [
+        {"type": "record", "name": "Created", "fields": [{"name": "id", "type": "int"}]},
+        {"type": "record", "name": "Deleted", "fields": [{"name": "id", "type": "int"}]}]}]}
+    add("write_hinted_record_twice", lambda: {"schema": copy.deepcopy(S_HINT), "datum": {"ev": {"-type": "ns.Deleted", "id": 7}}},
+        lambda fa, a, sh: [_sl(fa, a["schema"], a["datum"]), _sl(fa, a["schema"], a["datum"])])
+
     def dec_noscale(fa, a, sh):
         data = _sl(fa, a["schema"], a["value"])
         return [fa.schemaless_reader(io.BytesIO(data), a["schema"]), canon(fa, a["schema"])]
@@ -356,7 +367,7 @@ def run_c17(ctx, fa0):
             fa = fresh_library(ctx.repo)
             fresh[nm] = run_call(fa, calls, nm, {})[0]
         # calls meant to fail fail, all others succeed in a fresh library (a call that always fails exercises nothing)
-        meant_to_fail = {"parse_bad", "read_dangling_ref", "write_strict_A2_extra"}
+        meant_to_fail = {"parse_bad", "read_dangling_ref", "write_strict_A2_extra", "write_float_for_int"}
         for nm in names:
             if fresh[nm]["ok"] == (nm in meant_to_fail):
                 ctx.machinery.append("call %s %s in a fresh library" % (nm, "succeeds" if fresh[nm]["ok"] else "fails: %s" % fresh[nm].get("exc", [""])[0]))
